@@ -88,3 +88,10 @@ def _c04_structure_leaf(v):
     m = v["mech"]
     return v["oracle"] in ("undo", "single-undo") and m.get("step") == "ReplaceAroundStep" and m.get("failed") is True \
         and m.get("structure") is True and m.get("slice_has_leaf") is True
+
+
+@predicate("C12-lift-target-split-remainder")
+def _c12_lift(v):
+    m = v["mech"]
+    return v["oracle"] == "approved-edit-failed" and m.get("helper") == "lift_target" and m.get("exc") == "TransformError" \
+        and m.get("levels", 0) >= 2 and m.get("remainder_invalid") is True
